@@ -1547,7 +1547,11 @@ def main() -> int:
         # Loop through each target in the list.  Entries can specify a port number to use, otherwise the value provided on the command line (--port=N) will be used by default (set to 22 if --port is not used).
         target_servers = []
         for _, target in enumerate(aconf.target_list):
-            host, port = Utils.parse_host_and_port(target, default_port=aconf.port)
+            try:
+                host, port = Utils.parse_host_and_port(target, default_port=aconf.port)
+            except ValueError:
+                # An entry that cannot be parsed (i.e.: "host:ssh") must only cost that entry its result, not the whole run.  Port 0 is rejected by the worker, which reports the error for this entry.
+                host, port = target, 0
             target_servers.append((host, port))
 
         # A ranked list of return codes.  Those with higher indices will take precedence over lower ones.  For example, if three servers are scanned, yielding WARNING, GOOD, and UNKNOWN_ERROR, the overall result will be UNKNOWN_ERROR, since its index is the highest.  Errors have highest priority, followed by failures, then warnings.
